@@ -168,7 +168,7 @@ def known_choice_canonical_text(sc, g1, g2, what):
 
 
 def known_map_key_line_break(sc, g1, g2, what):
-    """a map option holds a key with a line break (visible in the first run's values: 0a / 0d inside a map key)"""
+    """a map option holds a key with a line break or a leading double quote (visible in the first run's values)"""
     vals = g1["ops"][0].get("vals", "")
     for part in vals.split(";"):
         _, _, v = part.partition(":")
@@ -177,7 +177,7 @@ def known_map_key_line_break(sc, g1, g2, what):
                 k = kv.partition(">")[0]
                 if k.startswith("s"):
                     kb = scen.unhex(k[1:])
-                    if b"\n" in kb or b"\r" in kb:
+                    if b"\n" in kb or b"\r" in kb or kb.startswith(b'"'):
                         return True
     return False
 
